@@ -307,3 +307,189 @@ package lint
 //@   ensures implies(exists(s, 0, 8, unq(data) == label(LintStatus(s))),
 //@                   result == nil && label(*e) == unq(data) && 0 <= *e && *e <= 7)
 //@   ensures implies(!exists(s, 0, 8, unq(data) == label(LintStatus(s))), result != nil && *e == old(*e))
+
+// ---------------------------------------------------------------------------
+// registry representation (C08 C12 C13 C10). wf<kind>Lookup is the representation invariant of a
+// lookup table: it is established by the constructor, preserved by register and assumed by the
+// read accessors (its fields are unexported; the census obligation "only new*/register write
+// them" closes the argument).
+
+//@ spec wfcertLookup(lk *certificateLinterLookupImpl) bool =
+//@      lk != nil && lk.lintsByName != nil && lk.lintsBySource != nil && lk.sources != nil &&
+//@      len(lk.lintNames) == len(lk.lints) &&
+//@      forall(i, 0, len(lk.lints), lk.lints[i] != nil && allocated(lk.lints[i]) && lk.lints[i].Lint != nil &&
+//@             indom(lk.lintsByName, lk.lints[i].Name) && lk.lintsByName[lk.lints[i].Name] == lk.lints[i]) &&
+//@      forall(i, 0, len(lk.lints), forall(j, 0, len(lk.lints), implies(i != j, lk.lints[i].Name != lk.lints[j].Name))) &&
+//@      all(n, string, implies(indom(lk.lintsByName, n), exists(i, 0, len(lk.lints), lk.lints[i].Name == n)))
+
+//@ func (*certificateLinterLookupImpl).ByName [C08 C12 C13 C10]
+//@   requires lookup != nil
+//@   nopanic
+//@   assigns \nothing
+//@   ensures implies(lookup.lintsByName != nil && indom(lookup.lintsByName, name), result == lookup.lintsByName[name])
+//@   ensures implies(!(lookup.lintsByName != nil && indom(lookup.lintsByName, name)), result == nil)
+
+//@ func (*certificateLinterLookupImpl).Lints [C01 C08 C12 C10]
+//@   requires wfcertLookup(lookup)
+//@   nopanic
+//@   assigns \nothing
+//@   ensures result == lookup.lints && wfCertLints(result)
+
+//@ func (*certificateLinterLookupImpl).BySource [C08 C10]
+//@   requires lookup != nil
+//@   nopanic
+//@   assigns \nothing
+
+//@ spec wfcrlLookup(lk *revocationListLinterLookupImpl) bool =
+//@      lk != nil && lk.lintsByName != nil && lk.lintsBySource != nil && lk.sources != nil &&
+//@      len(lk.lintNames) == len(lk.lints) &&
+//@      forall(i, 0, len(lk.lints), lk.lints[i] != nil && allocated(lk.lints[i]) && lk.lints[i].Lint != nil &&
+//@             indom(lk.lintsByName, lk.lints[i].Name) && lk.lintsByName[lk.lints[i].Name] == lk.lints[i]) &&
+//@      forall(i, 0, len(lk.lints), forall(j, 0, len(lk.lints), implies(i != j, lk.lints[i].Name != lk.lints[j].Name))) &&
+//@      all(n, string, implies(indom(lk.lintsByName, n), exists(i, 0, len(lk.lints), lk.lints[i].Name == n)))
+
+//@ func (*revocationListLinterLookupImpl).ByName [C08 C12 C13 C10]
+//@   requires lookup != nil
+//@   nopanic
+//@   assigns \nothing
+//@   ensures implies(lookup.lintsByName != nil && indom(lookup.lintsByName, name), result == lookup.lintsByName[name])
+//@   ensures implies(!(lookup.lintsByName != nil && indom(lookup.lintsByName, name)), result == nil)
+
+//@ func (*revocationListLinterLookupImpl).Lints [C01 C08 C12 C10]
+//@   requires wfcrlLookup(lookup)
+//@   nopanic
+//@   assigns \nothing
+//@   ensures result == lookup.lints && wfCrlLints(result)
+
+//@ func (*revocationListLinterLookupImpl).BySource [C08 C10]
+//@   requires lookup != nil
+//@   nopanic
+//@   assigns \nothing
+
+//@ spec wfocspLookup(lk *ocspResponseLinterLookupImpl) bool =
+//@      lk != nil && lk.lintsByName != nil && lk.lintsBySource != nil && lk.sources != nil &&
+//@      len(lk.lintNames) == len(lk.lints) &&
+//@      forall(i, 0, len(lk.lints), lk.lints[i] != nil && allocated(lk.lints[i]) && lk.lints[i].Lint != nil &&
+//@             indom(lk.lintsByName, lk.lints[i].Name) && lk.lintsByName[lk.lints[i].Name] == lk.lints[i]) &&
+//@      forall(i, 0, len(lk.lints), forall(j, 0, len(lk.lints), implies(i != j, lk.lints[i].Name != lk.lints[j].Name))) &&
+//@      all(n, string, implies(indom(lk.lintsByName, n), exists(i, 0, len(lk.lints), lk.lints[i].Name == n)))
+
+//@ func (*ocspResponseLinterLookupImpl).ByName [C08 C12 C13 C10]
+//@   requires lookup != nil
+//@   nopanic
+//@   assigns \nothing
+//@   ensures implies(lookup.lintsByName != nil && indom(lookup.lintsByName, name), result == lookup.lintsByName[name])
+//@   ensures implies(!(lookup.lintsByName != nil && indom(lookup.lintsByName, name)), result == nil)
+
+//@ func (*ocspResponseLinterLookupImpl).Lints [C01 C08 C12 C10]
+//@   requires wfocspLookup(lookup)
+//@   nopanic
+//@   assigns \nothing
+//@   ensures result == lookup.lints && wfOcspLints(result)
+
+//@ func (*ocspResponseLinterLookupImpl).BySource [C08 C10]
+//@   requires lookup != nil
+//@   nopanic
+//@   assigns \nothing
+
+//@ func (*linterLookupImpl).Names [C08 C12 C10]
+//@   requires lookup != nil
+//@   nopanic
+//@   assigns \nothing
+//@   ensures result == lookup.lintNames
+
+//@ func (*linterLookupImpl).Sources [C08 C10]
+//@   requires lookup != nil
+//@   nopanic
+//@   assigns \fresh
+
+// registry-level accessors: read-only (C10: concurrent readers never write shared memory)
+
+//@ func (*registryImpl).Names [C08 C12 C10]
+//@   requires r != nil
+//@   nopanic
+//@   assigns \fresh
+//@   ensures fresh(result) || result == nil
+//@   ensures len(result) == len(r.certificateLints.lintNames) + len(r.ocspResponseLints.lintNames) + len(r.revocationListLints.lintNames)
+
+//@ func (*registryImpl).Sources [C08 C10]
+//@   requires r != nil
+//@   nopanic
+//@   assigns \fresh
+
+//@ func (*registryImpl).ByName [C08 C10]
+//@   requires r != nil
+//@   nopanic
+//@   assigns \fresh
+
+//@ func (*registryImpl).BySource [C08 C10]
+//@   requires r != nil
+//@   nopanic
+//@   assigns \fresh
+
+//@ func (*registryImpl).CertificateLints [C01 C08 C10]
+//@   requires r != nil
+//@   nopanic
+//@   assigns \nothing
+//@   ensures result != nil
+//@ func (*registryImpl).RevocationListLints [C01 C08 C10]
+//@   requires r != nil
+//@   nopanic
+//@   assigns \nothing
+//@   ensures result != nil
+//@ func (*registryImpl).OcspResponseLints [C01 C08 C10]
+//@   requires r != nil
+//@   nopanic
+//@   assigns \nothing
+//@   ensures result != nil
+
+//@ func (*registryImpl).GetConfiguration [C08 C10 C11]
+//@   requires r != nil
+//@   nopanic
+//@   assigns \nothing
+//@   ensures result == r.configuration
+
+//@ func (*registryImpl).SetConfiguration [C08 C11]
+//@   requires r != nil
+//@   nopanic
+//@   assigns r.configuration
+//@   ensures r.configuration == cfg
+
+//@ func (*registryImpl).WriteJSON [C10 C14]
+//@   requires r != nil && wfcertLookup(&r.certificateLints) && wfocspLookup(&r.ocspResponseLints) && wfcrlLookup(&r.revocationListLints)
+//@   assigns \fresh
+
+//@ func (FilterOptions).Empty [C08]
+//@   pure
+//@   nopanic
+//@   ensures result == (f.NameFilter == nil && len(f.IncludeNames) == 0 && len(f.ExcludeNames) == 0 &&
+//@                      len(f.IncludeSources) == 0 && len(f.ExcludeSources) == 0)
+
+// known(r, n): n is the name of a lint of some kind in r
+//@ spec known(r *registryImpl, n string) bool =
+//@      (r.certificateLints.lintsByName != nil && indom(r.certificateLints.lintsByName, n) && r.certificateLints.lintsByName[n] != nil) ||
+//@      (r.ocspResponseLints.lintsByName != nil && indom(r.ocspResponseLints.lintsByName, n) && r.ocspResponseLints.lintsByName[n] != nil) ||
+//@      (r.revocationListLints.lintsByName != nil && indom(r.revocationListLints.lintsByName, n) && r.revocationListLints.lintsByName[n] != nil)
+
+//@ func (*registryImpl).lintNamesToMap [C08 C13]
+//@   requires r != nil
+//@   nopanic
+//@   assigns \fresh
+//@   loop 1 invariant namesMap != nil && fresh(namesMap) && k <= len(names)
+//@   loop 1 invariant forall(j, 0, k, known(r, trim(names[j])) && indom(namesMap, trim(names[j])) && namesMap[trim(names[j])])
+//@   loop 1 invariant all(n, string, implies(indom(namesMap, n), namesMap[n] && exists(j, 0, k, trim(names[j]) == n)))
+//@   ensures implies(len(names) == 0, result0 == nil && result1 == nil)
+//@   ensures (result1 == nil) == forall(j, 0, len(names), known(r, trim(names[j])))
+//@   ensures implies(result1 == nil && len(names) != 0, result0 != nil && fresh(result0) &&
+//@                   all(n, string, (indom(result0, n) && result0[n]) == exists(j, 0, len(names), trim(names[j]) == n)))
+//@   ensures implies(result1 != nil, result0 == nil)
+
+//@ func sourceListToMap [C08]
+//@   nopanic
+//@   assigns \fresh
+//@   loop 1 invariant sourceMap != nil && fresh(sourceMap) && k <= len(sources)
+//@   loop 1 invariant forall(j, 0, k, indom(sourceMap, sources[j]) && sourceMap[sources[j]])
+//@   loop 1 invariant all(s, LintSource, implies(indom(sourceMap, s), sourceMap[s] && exists(j, 0, k, sources[j] == s)))
+//@   ensures implies(len(sources) == 0, result == nil)
+//@   ensures implies(len(sources) != 0, result != nil && fresh(result) &&
+//@                   all(s, LintSource, (indom(result, s) && result[s]) == exists(j, 0, len(sources), sources[j] == s)))
